@@ -255,6 +255,9 @@ func genCommon(t *rapid.T, s *rt.Spec, o GenOpts) {
 			s.Encl = "generic"
 		}
 		s.Paren = prob(t, "paren", 0.12)
+		if prob(t, "stmtctx", 0.3) {
+			s.Stmt = []string{"ifinit", "switch", "arg", "field", "tuple"}[uniform(t, "stmt", 5)]
+		}
 		if prob(t, "extra", 0.2) {
 			s.Extra = 1 + uniform(t, "extran", 2)
 		}
